@@ -34,10 +34,11 @@ A1 == [oid |-> "1.2.840.113549.1.9.7", values |-> "31040c027077"]
 A2 == [oid |-> "1.2.840.113549.1.9.2", values |-> "311b0c19612d6c6f6e672d756e737472756374757265642d6e616d652e"]
 A3 == [oid |-> "1.3.6.1.4.1.55555.9", values |-> "3103020105"]
 A1b == [oid |-> "1.2.840.113549.1.9.7", values |-> "31050c03707732"]
+A4 == [oid |-> "1.2.840.113549.1.9.2", values |-> "318201300c82012c787878787878787878787878787878787878787878787878787878787878787878787878787878787878787878787878787878787878787878787878787878787878787878787878787878787878787878787878787878787878787878787878787878787878787878787878787878787878787878787878787878787878787878787878787878787878787878787878787878787878787878787878787878787878787878787878787878787878787878787878787878787878787878787878787878787878787878787878787878787878787878787878787878787878787878787878787878787878787878787878787878787878787878787878787878787878787878787878787878787878787878787878787878787878787878787878787878787878787878787878"]   \* 300 octets: sorts after every extension request in the SET OF
 AX == [oid |-> "1.2.840.113549.1.9.14", values |-> "31023000"]   \* an extensionRequest attribute of the caller's own (empty list)
-AttrLists == IF Quick THEN { <<>>, <<A1>>, <<A2, A1>>, <<A1, A2>>, <<A1, A1>>, <<A3, A2, A1b, A1>>, <<A1, AX>> }
+AttrLists == IF Quick THEN { <<>>, <<A1>>, <<A2, A1>>, <<A1, A2>>, <<A1, A1>>, <<A3, A2, A1b, A1>>, <<A1, AX>>, <<A4>>, <<A4, A1>> }
              ELSE { <<>>, <<A1>>, <<A2>>, <<A2, A1>>, <<A1, A2>>, <<A1, A1>>, <<A1, A1b>>, <<A1b, A1>>, <<A3, A2, A1>>, <<A1, A2, A3>>,
-                    <<A2, A3, A1>>, <<A3, A2, A1b, A1>>, <<A1, A1b, A2, A3>>, <<A1, AX>>, <<AX>> }
+                    <<A2, A3, A1>>, <<A3, A2, A1b, A1>>, <<A1, A1b, A2, A3>>, <<A1, AX>>, <<AX>>, <<A4>>, <<A4, A1>>, <<A1, A4, A3>> }
 
 Unsup == [serial : Bool, ca : {"NoCa", "ExplicitNoCa", "Ca"}, nc : {"none", "empty", "some"}, crldp : Bool, aki : Bool]
 UnsupQuick == Unsup
